@@ -12,6 +12,9 @@ C36 driver.  Case lines (documents in the canonical one-token encoding of harnes
                                  a patch made of valid edits must be accepted, and an accepted candidate must
                                  agree with `merge T P` on every leaf (members the merged document lacks or holds
                                  as a zero value may be defaulted by the decoder).
+  eff <E> <P> <R|->\t<acc|rej>    E = json.Marshal(effective configuration) (not canonicalConfigJSON), P = {} or a
+                                 Lite-routes patch, R = json.Marshal(candidate): R must agree with `merge E P`
+                                 on every leaf — the patch target is the effective configuration
 -/
 namespace Gate.C36
 open Gate
@@ -108,6 +111,16 @@ def step (c : Case) : String × String :=
       else if c.impl = "rej" then (if exp = "a" then "viol:valid-patch-rejected" else "ok")
       else "viol:" ++ c.impl
     (model, verdict)
+  | "eff", [es, ps, rs] =>
+    -- the merge-patch target must be the EFFECTIVE configuration: E is the effective configuration encoded
+    -- independently of canonicalConfigJSON; an accepted candidate R must agree with `merge E P` on every leaf
+    let verdict :=
+      if c.impl = "acc" then
+        match parseDoc es, parseDoc ps, parseDoc rs with
+        | some e, some p, some r => if leafAgree (merge e p) r then "ok" else "viol:target-not-effective"
+        | _, _, _ => "viol:target-not-effective"
+      else "viol:valid-patch-rejected"
+    ("acc", verdict)
   | _, _ => ("bad-op", "-")
 
 end Gate.C36
